@@ -5,7 +5,7 @@ sys.path.insert(0, os.path.dirname(os.path.abspath(__file__)))
 import seedtest
 ROOT = seedtest.ROOT
 for pid in sys.argv[1:]:
-    for x in ('A', 'B', 'C', 'D', 'E', 'F'):
+    for x in ('A', 'B', 'C', 'D', 'E', 'F', 'G', 'H'):
         src = '%s/%s/%s' % (os.environ.get('SEEDOUT', '/tmp/seedout2'), pid, x)
         if not os.path.exists(os.path.join(src, 'patch.diff')):
             continue
